@@ -128,6 +128,17 @@ func (a *Application) getProviderEndpoints(ctx context.Context, providerType str
 
 	providerEndpoints := a.filterEndpointsByProfile(endpoints, providerProfile, pr.requestLogger)
 
+	// filterEndpointsByProfile falls back to every endpoint when none is compatible, which suits
+	// the generic proxy route; a provider-scoped route must stay inside its provider, so the
+	// constraint is applied strictly here (no compatible endpoint => no endpoints).
+	strictEndpoints := make([]*domain.Endpoint, 0, len(providerEndpoints))
+	for _, endpoint := range providerEndpoints {
+		if providerProfile.IsCompatibleWith(NormaliseProviderType(endpoint.Type)) {
+			strictEndpoints = append(strictEndpoints, endpoint)
+		}
+	}
+	providerEndpoints = strictEndpoints
+
 	// If the request has specific requirements (e.g., needs vision support),
 	// apply those filters on top of the provider constraint
 	if pr.profile != nil && len(pr.profile.SupportedBy) > 0 {
